@@ -292,8 +292,12 @@ func (c *Ctx) Finish() int {
 		e.Assumptions = []string{}
 	}
 	b, _ := json.MarshalIndent(e, "", " ")
-	os.MkdirAll(filepath.Join(c.Dir, "evidence"), 0o755)
-	path := filepath.Join(c.Dir, "evidence", c.ID+".json")
+	evdir := filepath.Join(c.Dir, "evidence")
+	if d := os.Getenv("VERIF_EVIDENCE_DIR"); d != "" {
+		evdir = d // runs against scratch copies must not touch the committed evidence
+	}
+	os.MkdirAll(evdir, 0o755)
+	path := filepath.Join(evdir, c.ID+".json")
 	if err := os.WriteFile(path, append(b, '\n'), 0o644); err != nil {
 		fmt.Fprintf(os.Stderr, "cannot write evidence: %v\n", err)
 		return ExitInconclusive
